@@ -112,7 +112,29 @@ func mutateStructure(p *Program, intn func(int) int) string {
 			top[n] = true
 		}
 	}
-	switch intn(7) {
+	switch intn(8) {
+	case 7: // a top-level process that nobody refers to is declared under the name `self` (or with a polarity sign)
+		used := map[string]bool{}
+		for _, q := range p.Procs {
+			fv := map[string]bool{}
+			FV(q.Body, map[string]bool{}, fv)
+			for n := range fv {
+				used[n] = true
+			}
+		}
+		var cands []*Proc
+		for _, q := range p.Procs {
+			if q.Exec == "" && len(q.Names) == 1 && !used[q.Names[0]] {
+				cands = append(cands, q)
+			}
+		}
+		if len(cands) == 0 {
+			return ""
+		}
+		q := cands[intn(len(cands))]
+		old := q.Names[0]
+		q.Names[0] = []string{"self", "self", "+" + old, "-" + old}[intn(4)]
+		return fmt.Sprintf("process %s declared as prc[%s]", old, q.Names[0])
 	case 6: // the two binders of one receive or split spelled alike
 		s := pick(func(t Term) bool {
 			switch t.(type) {
